@@ -284,6 +284,72 @@ cross_thread_pair (const unsigned char key[8], const unsigned char blk[8], int d
           dir ? "setkey on a worker thread, encrypt on the main thread" : "setkey on the main thread, encrypt on a worker thread", hk, hb);
 }
 
+/* The re-entrant pair on distinct objects from several threads, as the FIRST DES calls of a process (whatever
+   the library sets up lazily is set up then): one fresh child process per trial, threads released together.  */
+#include <sys/wait.h>
+#include <unistd.h>
+struct cold { unsigned char key[8], blk[8], got[8]; struct crypt_data *cd; };
+static volatile int cold_go;
+static void *
+cold_run (void *a)
+{
+  struct cold *c = a;
+  char k64[64], b64[64];
+  spread (k64, c->key, 0);
+  spread (b64, c->blk, 0);
+  while (!cold_go) ;
+  p_setkey_r (k64, c->cd);
+  p_encrypt_r (b64, 0, c->cd);
+  gather (c->got, b64);
+  return 0;
+}
+
+static long
+cold_trials (int trials)
+{
+  long bad = 0;
+  for (int t = 0; t < trials; t++)
+    {
+      struct cold c[4];
+      for (int i = 0; i < 4; i++)
+        {
+          uint64_t a = rnd (), b = rnd ();
+          memcpy (c[i].key, &a, 8); memcpy (c[i].blk, &b, 8);
+        }
+      fflush (stdout);
+      pid_t pid = fork ();
+      if (pid < 0) return bad;
+      if (pid == 0)
+        {
+          pthread_t th[4];
+          int wrong = 0;
+          for (int i = 0; i < 4; i++) { c[i].cd = calloc (1, sizeof (struct crypt_data)); pthread_create (&th[i], 0, cold_run, &c[i]); }
+          cold_go = 1;
+          for (int i = 0; i < 4; i++) pthread_join (th[i], 0);
+          for (int i = 0; i < 4; i++)
+            {
+              unsigned char want[8];
+              ref_des (c[i].key, c[i].blk, want, 0);
+              if (memcmp (want, c[i].got, 8)) wrong++;
+            }
+          _exit (wrong ? 1 : 0);
+        }
+      int st = 0;
+      waitpid (pid, &st, 0);
+      n_cmp += 4;
+      if (!WIFEXITED (st) || WEXITSTATUS (st))
+        {
+          char hk[17], hb[17];
+          hex8 (hk, c[0].key); hex8 (hb, c[0].blk);
+          if (!bad)
+            viol ("concurrent-first-use", "trial %d: 4 threads making the first setkey_r/encrypt_r calls of a process on their own "
+                  "objects: a result differs from DES or the process died (status 0x%x); first key=%s block=%s", t, st, hk, hb);
+          bad++;
+        }
+    }
+  return bad;
+}
+
 static int
 cmd_api (long n)
 {
@@ -291,6 +357,9 @@ cmd_api (long n)
   p_setkey_r = vsym ("setkey_r"); p_encrypt_r = vsym ("encrypt_r");
   if (!p_setkey || !p_encrypt || !p_setkey_r || !p_encrypt_r)
     { viol ("symbol-missing", "setkey/encrypt/setkey_r/encrypt_r not bound by dlvsym"); printf ("STAT {\"comparisons\": 0}\n"); return 1; }
+  /* before this process has made any DES call itself */
+  cold_trials (n >= 100000 ? 3000 : 400);
+  printf ("CLS api concurrent-first-use\n");
   cd_a = calloc (1, sizeof *cd_a); cd_b = calloc (1, sizeof *cd_b); cd_c = calloc (1, sizeof *cd_c);
   unsigned char key[8], blk[8];
   /* all weight-1 and weight-63 keys x all weight-1 and weight-63 blocks */
